@@ -8,7 +8,7 @@ import pykoop
 from .. import core, lmi_common as lc
 
 THEOREMS = ['Pk.C13.C13_eigpairs', 'Pk.C13.C13_eigvec', 'Pk.C13.C13_mode_ne_zero', 'Pk.C13.C13_rank',
-            'Pk.C13.C13_projected', 'Pk.C13.C13_spectrum_partial']
+            'Pk.C13.C13_projected', 'Pk.C13.C13_spectrum_partial', 'Pk.C13.C13_charpoly', 'Pk.C13.C13_spectrum']
 LEVEL = 'other'
 
 
